@@ -31,7 +31,12 @@ TVReset == /\ l <= Len(Rec) /\ Rec[l].ev = "reset" /\ cur' = Rec[l].id /\ l' = l
 TVCall == /\ l <= Len(Rec) /\ Rec[l].ev = "gcall"
           /\ viol' = AddViol(viol, WireViol(Rec[l]) \cup ReplyViol(Rec[l]), cur)
           /\ judged' = judged + 1 /\ l' = l + 1 /\ UNCHANGED cur
-TVNext == TVReset \/ TVCall
+TVTeardown == /\ l <= Len(Rec) /\ Rec[l].ev = "teardown"
+              /\ viol' = AddViol(viol, TeardownViol(Rec[l], "gpu-proxy"), cur)
+              /\ l' = l + 1
+              /\ UNCHANGED <<judged, cur>>
+
+TVNext == TVTeardown \/ TVReset \/ TVCall
 TVSpec == TVInit /\ [][TVNext]_tvars
 Post == PostOK
 Report == ReportAt(l, judged, viol)
